@@ -67,6 +67,9 @@ var junkTexts = []string{
 	"goroutine 1 [running]", "Goroutine 7 (running) created", "=================", "===================",
 	"WARNING: DATA RACE!", "Read at 0x00c00001 by thread T1:", "été ☃", "main.f(0x1) trailing",
 	"created at main.c", "goroutine one [running]:", "goroutine 1234567890123456789012 [running]:",
+	// near misses of the elided-frames marker and of other dump lines: ordinary text
+	"...output truncated...", "... [1532 lines skipped] ...", "...additional frames elided", "..additional frames elided...",
+	"... frames elided", "goroutine running on other thread", "Previous write at 0x00c000010000 by thread T1:",
 }
 
 // renderBody returns the text of a line body. variant selection is seeded.
